@@ -60,6 +60,24 @@ func EvalConstraints(cfg map[string]*MLeaf) []Violation {
 			out = append(out, Violation{"mandatory", e + "/req", "mandatory leaf req missing in " + e, e + "/req"})
 		}
 	}
+	// leafref with a current() predicate: per ml entry, mref must equal the val of the k1 entry that msel names
+	for e := range entries {
+		mref, ok := get(e + "/mref")
+		if !ok {
+			continue
+		}
+		msel, sok := get(e + "/msel")
+		if !sok {
+			out = append(out, Violation{"leafref", mref.Key(), "leafref predicate operand " + e + "/msel does not exist", e + "/msel"})
+			continue
+		}
+		tp := "/k1[name=" + msel.Lex + "]/val"
+		if tv, ok := get(tp); !ok {
+			out = append(out, Violation{"leafref", mref.Key(), "leafref target " + tp + " does not exist", tp})
+		} else if tv.Lex != mref.Lex {
+			out = append(out, Violation{"leafref", mref.Key(), "no instance of " + tp + " has the value " + mref.Lex, ""})
+		}
+	}
 	if l, ok := get("/cons/ref"); ok {
 		if _, ok := get("/k1[name=" + l.Lex + "]/name"); !ok {
 			out = append(out, Violation{"leafref", l.Key(), "leafref target /k1[name=" + l.Lex + "]/name does not exist", "/k1[name=" + l.Lex + "]/name"})
